@@ -224,6 +224,28 @@ def list_theory_obligations(ctx: Ctx) -> None:
                    detail=None if ok else "the definitions of the filtered-sequence theory prove a false statement")
 
 
+def guarded(ctx: Ctx, prop: str, fn, what: str = "bounded harness") -> None:
+    """runs a bounded harness.  An exception it did not expect, raised INSIDE the code under test (innermost frame in
+    the repository), means the harness cannot go on with this tree: that decides nothing (an undecided obligation with
+    the location), it is neither a crash of the checker nor a violation.  Anything else is a checker error."""
+    t0 = time.time()
+    try:
+        fn()
+    except BaseException as e:  # noqa  (ahbicht's InvalidExpressionError derives from BaseException)
+        if isinstance(e, (KeyboardInterrupt, SystemExit, GeneratorExit)):
+            raise
+        tb = traceback.extract_tb(e.__traceback__)
+        repo_src = os.path.realpath(os.environ.get("AHBICHT_REPO", "/repo"))
+        if not tb or not os.path.realpath(tb[-1].filename).startswith(repo_src):
+            raise
+        where = f"{tb[-1].filename}:{tb[-1].lineno} in {tb[-1].name}"
+        ctx.obligation("bounded/harness-completed", "undecided", backend="CPython (bounded harness)",
+                       seconds=time.time() - t0,
+                       detail=f"the code under test raised {type(e).__name__}: {str(e)[:200]} at {where}, which the {what} "
+                              f"of {prop} does not expect; the remaining bounded clauses were not evaluated")
+        ctx.note(f"{what} of {prop} stopped: {type(e).__name__} at {where}")
+
+
 def run_bounded(ctx: Ctx, prop: str) -> bool:
     """runs bounded/<prop>.py if it exists"""
     try:
@@ -233,8 +255,7 @@ def run_bounded(ctx: Ctx, prop: str) -> bool:
             ctx.note(f"no bounded stand-in module for {prop}")
             return False
         raise
-    t0 = time.time()
-    m.run(ctx, ctx.tier, ctx.seed)
+    guarded(ctx, prop, lambda: m.run(ctx, ctx.tier, ctx.seed))
     return True
 
 
